@@ -68,9 +68,21 @@ P("C05", "proof", "Lean 4 theorems (lexicographic total-order laws, eq iff compo
   modules=["TypedPathVerif.Lemmas.Order"],
   rule=NONTRIV + "pairs: each path with its re-spellings and random others; non-trivial = equal but differently spelled, or >= 2 components", design_ref="§5 C05")
 
-P("C06", "translation_validation", "Lean model vs code differential + std::path oracle",
-  "Unix queries against the model and against real std::path, byte for byte.",
-  TV_NOTE + "Known finding K1 (strip_prefix remainder keeps trailing junk) is set aside by a narrow class predicate.",
+P("C06", "proof", "Lean 4 refinement theorems (Unix queries = StdSpec) + model/code and StdSpec/std correspondence; strip_prefix bytes partial (known finding K1)",
+  "Proved in Lean for all byte strings / pairs: parent is a byte-prefix whose std components are std's minus the last "
+  "(C09.unix_parent_vs_std), file_name is the last of std's components when normal (unix_file_name_vs_std), stem and "
+  "extension split it as documented (C12.stem_ext_split), starts_with / ends_with hold exactly when std's component "
+  "list of the argument is a leading / trailing run (unix_starts_with_vs_std, unix_ends_with_vs_std), strip_prefix "
+  "succeeds exactly then (strip_prefix_some_iff), == and cmp are equality and the derived lexicographic order of "
+  "std's component lists (unix_eq_vs_std, unix_cmp_vs_std). StdSpec is compared with real std::path on every run.",
+  "Partial: (1) byte-exactness of parent (that the returned prefix is the *shortest* one, as std's) and of the "
+  "strip_prefix remainder is not proved; the remainder is in fact not byte-equal to std's — known finding K1, proved as "
+  "unix_strip_prefix_K1_witness and set aside in the oracle by a narrow class predicate; (2) ancestors is iterated "
+  "parent (fuel-bounded in the model). Both are compared byte for byte with real std by the oracle on every run. "
+  "Model=code and StdSpec=std by differential testing.",
+  theorems=["TP.C09.unix_parent_vs_std", "TP.C06.unix_file_name_vs_std", "TP.C12.stem_ext_split", "TP.C06.unix_starts_with_vs_std",
+            "TP.C06.unix_ends_with_vs_std", "TP.C06.strip_prefix_some_iff", "TP.C06.unix_eq_vs_std", "TP.C06.unix_cmp_vs_std",
+            "TP.C06.unix_strip_prefix_K1_witness"],
   rule=NONTRIV + "non-trivial = >= 2 components (unary) / true prefix relation (pairs)", design_ref="§5 C06")
 
 P("C07", "proof", "Lean 4 invariant-by-induction over operation histories (model vs StdBuf) + model/code and StdBuf/std correspondence",
@@ -126,9 +138,19 @@ P("C12", "proof", "Lean 4 theorems (law B; list lemma on the dot split) + model/
   modules=["TypedPathVerif.Lemmas.DotSplit"],
   rule=NONTRIV + "names over {. a b} exhaustively; non-trivial = file name containing a dot / path with a file name", design_ref="§5 C12")
 
-P("C13", "translation_validation", "Lean model vs code differential + std oracle",
-  "set_extension bytes against the model and (Unix) against std::path::PathBuf::set_extension; multi-byte UTF-8 next to every cut.",
-  TV_NOTE, rule=NONTRIV + "(path, extension) pairs; non-trivial = file name followed by separators or `.`", design_ref="§5 C13")
+P("C13", "proof", "Lean 4 byte-level theorem (cut at the end of the stem) + model/code correspondence; Unix vs std and name/parent clauses by oracle",
+  "Proved in Lean for both encodings, all paths and extensions: with a file name f the buffer is pre ++ f ++ junk (junk "
+  "= separator / `.` tokens only), set_extension returns true and the new buffer is pre ++ stem ++ ['.' ++ x] — cut "
+  "exactly at the end of the stem whatever trails the file name (set_ext_bytes); the cut is followed by a dot, a junk "
+  "token or nothing, i.e. never inside a name, hence on a character boundary of a valid UTF-8 buffer "
+  "(set_ext_cut_boundary); without a file name it returns false and leaves the buffer untouched (set_ext_false, "
+  "set_ext_true_iff).",
+  "Partial: that the *result re-parses* with file name stem[.x] and the old parent, the equality with "
+  "std::path::PathBuf::set_extension on Unix, repeated application, with_extension = clone + set_extension and the "
+  "UTF-8 copy are decided by the oracle (real std as reference) and the correspondence, not by a theorem. Model=code "
+  "by differential testing incl. multi-byte characters next to every cut.",
+  theorems=["TP.C13.set_ext_bytes", "TP.C13.set_ext_cut_boundary", "TP.C13.set_ext_false", "TP.C13.set_ext_true_iff", "TP.C13.set_ext_total"],
+  rule=NONTRIV + "(path, extension) pairs; non-trivial = file name followed by separators or `.`", design_ref="§5 C13")
 
 P("C14", "translation_validation", "UTF-8 family vs byte family transcripts + model differential",
   "Every UTF-8 operation is run next to its byte twin on the same valid strings (transcripts must be identical, every "
